@@ -392,6 +392,13 @@ class Checker:
         self.res.ok(self.rule, '%s.%s' % (self.prefix, slot), where, detail, function=self.fn.sig, expr='%s.%s' % (self.prefix, slot))
 
     def bad(self, slot, where, detail, facts=None):
+        # "expected X, found Y" where Y contains I/O the extractor cannot tabulate (an unknown buffer,
+        # an uncounted loop, ...) is an unknown idiom, not a demonstrated mismatch
+        global _LAST
+        if _LAST is not None and _LAST[0] in detail and not recognisable(_LAST[1]):
+            _LAST = None
+            return self.unknown(slot, where, detail + ' [contains I/O in a form the extractor does not tabulate]')
+        _LAST = None
         self.failed = True
         self.res.viol(self.rule, '%s.%s' % (self.prefix, slot), where, detail, function=self.fn.sig, expr='%s.%s' % (self.prefix, slot), facts=facts)
 
@@ -535,6 +542,36 @@ def orient(alt, canonical):
 
 
 def describe(it):
+    global _LAST
+    t = _describe(it)
+    _LAST = (t, it)
+    return t
+
+
+def recognisable(it):
+    """every leaf of the item is a read/write whose source, width and trip counts the extractor tabulates"""
+    if it is None:
+        return True
+    if it[0] == 'io':
+        d = it[1]
+        if d.get('k') == 'write':
+            return d.get('srck') in ('object', 'string', 'zeros') and (d.get('width') is not None or bool(d.get('width_alts')))
+        return True
+    if it[0] == 'loop':
+        return it[1] is not None and all(recognisable(x) for x in it[3])
+    if it[0] == 'alt':
+        return all(recognisable(x) for x in it[2]) and all(recognisable(x) for x in it[3])
+    if it[0] == 'call':
+        return all(recognisable(x) for x in it[3])
+    if it[0] == 'rec':
+        return False
+    return True
+
+
+_LAST = None
+
+
+def _describe(it):
     if it is None:
         return 'end of sequence'
     if it[0] == 'io':
